@@ -342,10 +342,8 @@ class Ctx:
 
 
 def cls_of_addr(a):
-    """input class for known-finding matching: the 0xFF escape collision, else generic"""
-    if a[1] == 255 or a[2] == 255:
-        return "addr:file-or-element-255"
-    return "addr:" + a[0]
+    """input class for known-finding matching"""
+    return "addr:" + a[0] + (":255" if a[1] == 255 or a[2] == 255 else "")
 
 
 def model_check_read(cx, s, tns, sent_before, result):
